@@ -72,7 +72,7 @@ PROPS = {
                 "(create/modify/rename/delete mixed), delete-user, get-user, login attempts and restarts, with logins/names/passwords "
                 "from pools of awkward byte strings that are legal file names; after every step list-users and the accounts directory "
                 "are compared with a model map, renamed-away/deleted logins are probed with every password ever used, and at the end "
-                "every model login x every password is tried and a fresh account manager is loaded from the directory; TestC15Burst: 2-5 "
+                "every model login x every password is tried and a fresh account manager is loaded from the directory; new-user also with logins of 245-250 bytes (the account file name fits, the temporary name used while writing does not: a refused creation must leave no trace in any view); TestC15Burst: 2-5 "
                 "administrators create / set / delete the same logins at the same instant for 4-12 rounds; which request wins is not constrained, "
                 "the listing is taken as reference and the files, a fresh manager and the logins that authenticate must equal it after every round; "
                 "non-trivial = a rename or delete followed by login attempts with the old login, or a restart after >= 3 edits; "
